@@ -143,4 +143,12 @@ def shape_id(shape):
 VNAMES = ['Alpha', 'Beta', 'Gamma', 'Delta']
 # deliberately not in alphabetical order (a handler that orders fields by name must show), 13 for the wide shapes
 FNAMES = ['y', 'x', 'z', 'w', 'k', 'j', 'v', 'u', 't', 's', 'r', 'q', 'o']
+
+
+def fname(i, k, n):
+    """name of field i of the k-th variant, which has n fields: the first n names rotated by the variant index, so that across the
+    named variants of one enum the same position carries different names and the same name sits at different positions"""
+    return FNAMES[(i + k) % n] if n else FNAMES[i]
+
+
 WIDE = 13    # positions >= 10 sort before 2 as strings
